@@ -38,6 +38,41 @@ def loopOn (patience : Nat) (delta : Rat) (s0 : PState Rat) (losses : List Rat) 
   | some (e, _) => (true, e, (pRun patience delta s0 0 (none :: (losses.take e).map some)).1)
   | none => (false, losses.length, (pRun patience delta s0 0 (none :: losses.map some)).1)
 
+/-- a loss as the float-shaped machine sees it: a rational, or the strings "nan" / "inf" / "-inf" -/
+def asFV (j : Json) : R (FV Rat) :=
+  match j with
+  | .str "nan" => pure .nan
+  | .str "inf" => pure .pinf
+  | .str "-inf" => pure .ninf
+  | .str s => throw s!"bad loss {s}"
+  | v => do let q ← asRat v; pure (.fin q)
+
+def optFV (j : Json) : R (Option (FV Rat)) :=
+  match j with
+  | .null => pure none
+  | v => do let x ← asFV v; pure (some x)
+
+def jFV : FV Rat → Json
+  | .nan => Json.str "nan"
+  | .pinf => Json.str "inf"
+  | .ninf => Json.str "-inf"
+  | .fin q => jRat q
+
+/-- `runCalls` for the float-shaped machine (`best` initialised to `inf`) -/
+def runCallsF (patience : Nat) (delta : FV Rat) (mon : Monitor) (m0 : Option Nat) (start : Nat)
+    (calls : List (Option (FV Rat) × Option (FV Rat))) : List (Bool × Option Nat × FV Rat) :=
+  let rec go (s : FState Rat) (m : Nat) :
+      List (Option (FV Rat) × Option (FV Rat)) → List (Bool × Option Nat × FV Rat)
+    | [] => []
+    | (t, v) :: rest =>
+      let (s', b) := pStepF patience delta s m (select mon t v)
+      (b, s'.bestModel, s'.best) :: go s' (m + 1) rest
+  go (FState.init m0) start calls
+
+def jLoopRes : Option (Nat × Option Nat) → Json
+  | none => Json.mkObj [("stopped", jBool false)]
+  | some (e, bm) => Json.mkObj [("stopped", jBool true), ("epoch", jNat e), ("best", jOptNat bm)]
+
 def jLoop (stopped : Bool) (e : Nat) (bm : Option Nat) : Json :=
   Json.mkObj [("stopped", jBool stopped), ("epoch", jNat e), ("best", jOptNat bm)]
 
@@ -79,6 +114,45 @@ def handle (op : String) (j : Json) : R Json := do
     match trainLoopP patience delta (fun n => losses.getD n last) fuel with
     | none => pure (Json.mkObj [("stopped", jBool false)])
     | some (e, bm) => pure (Json.mkObj [("stopped", jBool true), ("epoch", jNat e), ("best", jOptNat bm)])
+  | "c19.run_f" =>
+    -- the float-shaped machine (`pStepF` over `FV Rat`): losses may be "nan" / "inf" / "-inf"
+    let patience ← natF j "patience"
+    let delta ← field j "delta" >>= asFV
+    let mon ← strF j "monitor"
+    let mon ← match mon with
+      | "train" => pure Monitor.train
+      | "val" => pure Monitor.val
+      | _ => throw "bad monitor"
+    let m0 := (optField j "m0").bind (fun v => (asNat v).toOption)
+    let start ← natF j "start"
+    let calls ← listF (fun c => do
+      let t ← field c "train" >>= optFV
+      let v ← field c "val" >>= optFV
+      pure (t, v)) j "calls"
+    let out := runCallsF patience delta mon m0 start calls
+    pure (Json.mkObj [("verdicts", jList (fun p => jBool p.1) out),
+                      ("best_models", jList (fun p => jOptNat p.2.1) out),
+                      ("best_losses", jList (fun p => jFV p.2.2) out)])
+  | "c19.spec_f" =>
+    -- the spec that skips non-finite entries for "best" and counts them for "trailing"
+    let patience ← natF j "patience"
+    let delta ← field j "delta" >>= asRat
+    let losses ← listF asFV j "losses"
+    let pref := (List.range losses.length).map (fun i => (losses.take (i + 1)).reverse)
+    pure (Json.mkObj [
+      ("trailing", jList (fun h => jNat (trailingF delta h)) pref),
+      ("argbest", jList (fun h => jNat (argBestF delta h)) pref),
+      ("verdicts", jList (fun h => jBool (decide (trailingF delta h > patience))) pref)])
+  | "c19.loop_f" =>
+    -- the epoch loop of `train` on the float-shaped machine; the last loss repeats for ever
+    let patience ← natF j "patience"
+    let delta ← field j "delta" >>= asFV
+    let losses ← listF asFV j "losses"
+    let fuel ← natF j "fuel"
+    let last := losses.getLastD (.fin 0)
+    let lossfn := fun n => losses.getD n last
+    pure ((jLoopRes (trainLoopF patience delta lossfn fuel)).setObjVal! "ge_variant"
+      (jLoopRes (trainLoopGe patience delta lossfn fuel)))
   | "c19.reused" =>
     -- ONE condition object through two consecutive `train` loops
     let patience ← natF j "patience"
